@@ -157,7 +157,7 @@ struct Exec
 struct ProgressEngine : Engine
 {
 	std::vector<Pt> pts; bool thorough = false;
-	std::vector<tcpadv::Cfg> acfgs; int AN = 8, AK = 2;
+	std::vector<tcpadv::Cfg> acfgs; int AN = 8, AK = 2; size_t n_plain = 0;
 	uint64_t units(Args const& a) override
 	{
 		thorough = a.thorough(); pts.clear();
@@ -166,6 +166,9 @@ struct ProgressEngine : Engine
 			if (r == 2 && rp == 0 && !thorough) continue; // 50 kB/s with 7-byte reads: thorough only
 			acfgs.push_back(tcpadv::Cfg{ r, wp, rp, tcpadv::C_NEVER, d });
 		}
+		n_plain = acfgs.size();
+		// the same with a cancel() on both (open) sockets 300 ms into the connection - inside the second a lone dropped segment waits for its retransmission
+		for (int r = 0; r < 3; ++r) for (int wp = 0; wp < tcpadv::N_WPLANS_ALL; ++wp) for (int d = 0; d < 2; ++d) acfgs.push_back(tcpadv::Cfg{ r, wp, 1, tcpadv::C_NEVER, d });
 		for (int shape = 0; shape < NSHAPES; ++shape) for (int bw = 0; bw < 4; ++bw) for (int lat = 0; lat < 4; ++lat) for (int cap = 0; cap < 5; ++cap)
 		for (int len = 0; len < (thorough ? 6 : 5); ++len) for (int wr = 0; wr < 3; ++wr) for (int rd = 0; rd < 2; ++rd) for (int pat = 0; pat < 3; ++pat) {
 			if (pat == BOTH_WAYS && CAPS[cap] != 0) continue; // the statement restricts simultaneous traffic to unbounded queues
@@ -182,7 +185,7 @@ struct ProgressEngine : Engine
 		bool done = ctx.explore([&](Chooser& ch) {
 			Case c; c.set("adv", (long long)u).set("n", AN).set("thorough", thorough ? 1 : 0).set_ints("choices", ch.prefix);
 			ctx.begin(c);
-			tcpadv::Exec e; e.cfg = cfg; e.ch = &ch; e.ctx = &ctx; e.N = AN; e.want_progress = true; e.no_drops = cfg.dir == tcpadv::D_BOTH; // the statement promises progress under loss only for one direction at a time
+			tcpadv::Exec e; e.cfg = cfg; e.ch = &ch; e.ctx = &ctx; e.N = AN; e.want_progress = true; e.cancel_ms = u >= n_plain ? 300 : -1; e.no_drops = cfg.dir == tcpadv::D_BOTH; // the statement promises progress under loss only for one direction at a time
 			e.run();
 			c.set_ints("choices", ch.taken());
 			ctx.state(fmt("adv%llu|", (unsigned long long)u) + c.str("choices"));
@@ -190,7 +193,7 @@ struct ProgressEngine : Engine
 			ctx.R.counters["adversary_executions"]++; ctx.R.counters["packets_dropped_by_adversary"] += e.drops; ctx.R.counters["packets_held_by_adversary"] += e.holds;
 			for (auto& f : e.fails) { if (f.find("] progress:") == std::string::npos && f.find("] livelock:") == std::string::npos) continue; // the safety clauses are C05's
 				std::string tr; for (auto& l : e.log) tr += l + " ; ";
-				add_violation(ctx, "progress", c, tcpadv::cfg_str(cfg) + ": " + f + " | " + tr, fmt("progress/adversary/%d/%d", cfg.route, cfg.dir)); }
+				add_violation(ctx, "progress", c, tcpadv::cfg_str(cfg) + (u >= n_plain ? " [cancel() on both sockets at 300 ms]" : "") + ": " + f + " | " + tr, fmt("progress/adversary/%d/%d", cfg.route, cfg.dir)); }
 			ctx.end();
 		}, AK);
 		if (done) { ctx.R.bounds["adversary_deviations"] = AK; ctx.R.bounds["adversary_choice_points"] = AN; }
@@ -221,7 +224,7 @@ struct ProgressEngine : Engine
 		if (c.has("adv")) {
 			tcpadv::Cfg const& cfg = acfgs.at(size_t(c.num("adv")));
 			std::fprintf(stdout, "%s\n", tcpadv::cfg_str(cfg).c_str());
-			Chooser ch; ch.reset(c.ints("choices")); tcpadv::Exec e; e.cfg = cfg; e.ch = &ch; e.ctx = nullptr; e.N = int(c.num("n", AN)); e.live = true; e.want_progress = true; e.no_drops = cfg.dir == tcpadv::D_BOTH; e.run();
+			Chooser ch; ch.reset(c.ints("choices")); tcpadv::Exec e; e.cfg = cfg; e.ch = &ch; e.ctx = nullptr; e.N = int(c.num("n", AN)); e.live = true; e.want_progress = true; e.cancel_ms = size_t(c.num("adv")) >= n_plain ? 300 : -1; e.no_drops = cfg.dir == tcpadv::D_BOTH; e.run();
 			int nf = 0; for (auto& f : e.fails) if (f.find("] progress:") != std::string::npos || f.find("] livelock:") != std::string::npos) { ++nf; std::fprintf(stdout, "VIOLATION %s\n", f.c_str()); }
 			std::fprintf(stdout, nf ? "=> %d violation(s)\n" : "=> ok\n", nf);
 			return nf ? 1 : 0;
